@@ -378,6 +378,13 @@ def u8(ctx, rid):
         raise core.AnchorLost('metadata match decision in filter_entries: %d' % n)
 
 
+def u9(ctx, rid):
+    """every version of a key is listed also when the list is read from the on-disk index: the leaf cursors stay on the header
+    grid (C04.T12 instances)"""
+    import props.c04 as c04
+    c04.t12(ctx, rid)
+
+
 RULES = [
     Rule('C02.U1', 'the append in the write path is dominated by the duplicate policy branch; a found duplicate is acknowledged without storing', u1, 1),
     Rule('C02.U2', 'closed blobs are only ever marked with only_if_presented = true', u2, 2),
@@ -386,5 +393,6 @@ RULES = [
     Rule('C02.U5', 'version lists are cut immediately after the first deletion marker (per blob and across blobs)', u5, 2),
     Rule('C02.U7', 'the Deleted answer of the per-blob meta lookup is taken from the marker-terminated version list', u7, 1),
     Rule('C02.U8', 'metadata equality in the meta lookup is decided on decoded maps, never on serialized bytes', u8, 1),
+    Rule('C02.U9', 'on-disk version lists: leaf cursors move by whole record headers (C04.T12 instances)', u9, 4),
     Rule('C02.U6', 'the point lookup consults every candidate closed blob before it returns Ok', u6, 1),
 ]
